@@ -162,6 +162,7 @@ def run(ck, ctx):
 
     ck.ob(rule, "pass2-after-pass1", discharge.pass2_after_pass1(F), "ObjectFile::new is only called after SymbolTable::new returned Ok (both assemble fns)", "src/asm.rs")
     ck.include("C23", ctx, "C02.3", {"C23.1", "C23.2"}, "a defined label is found exactly when every declaration and every use fold case the same way")
+    ck.include("C01", ctx, "C02.4", {"C01.4"}, "pass 1 bounds a block by the sum of word_len: the bound (BlockInIO / WrappingBlock, no overflow in pass 2) holds only if word_len is exactly what pass 2 appends")
     ck.assume("`src` given to assemble_debug is the text the AST was parsed from")
     ck.assume("the program was produced by the parser (string literals < 65535 bytes, labels built by Label::new)")
     ck.assume("'exactly when' as a whole (completeness of the conjunction of conditions) is not decided; each guard is")
